@@ -7,9 +7,9 @@ mkdir -p /tmp/ev; git -C /repo worktree remove --force $wt >/dev/null 2>&1; git 
 cd $wt
 if ! git apply --check $patch 2>/dev/null; then echo "PATCH DOES NOT APPLY"; git -C /repo worktree remove --force $wt; exit 2; fi
 git apply $patch; echo "== diff stat"; git diff --stat | tail -2
-echo "== demo with change"; timeout 600 /venv/bin/python $demo > /tmp/ev/$id.with 2>&1; echo "exit=$?"; tail -1 /tmp/ev/$id.with | cut -c1-200
+echo "== demo with change"; timeout 600 env PYTHONPATH=$wt /venv/bin/python $demo > /tmp/ev/$id.with 2>&1; echo "exit=$?"; tail -1 /tmp/ev/$id.with | cut -c1-200
 git apply -R $patch
-echo "== demo without change"; timeout 600 /venv/bin/python $demo > /tmp/ev/$id.without 2>&1; echo "exit=$?"; tail -1 /tmp/ev/$id.without | cut -c1-200
+echo "== demo without change"; timeout 600 env PYTHONPATH=$wt /venv/bin/python $demo > /tmp/ev/$id.without 2>&1; echo "exit=$?"; tail -1 /tmp/ev/$id.without | cut -c1-200
 git apply $patch
 echo "== checks against seeded tree"
 cd /verif
